@@ -50,6 +50,7 @@ type peerSt struct {
 	connected bool
 	replied   bool
 	preNM     bool // made an entry through [0]:0 before its reply in this connection
+	foreign   bool // announced an entity under a device address before its own reply
 	ents      map[string]bool
 }
 
@@ -87,7 +88,9 @@ type gen struct {
 	refs   []ref
 	nmRefs map[int64]bool // device numbers the local node management subscribed to
 	asked  map[string]bool
-	gen    map[int64]int // connection generation per SKI
+	gen    map[int64]int   // connection generation per SKI
+	mode   int             // 0: device addresses pairwise distinct
+	bound  map[string]bool // "ski/server" pairs for which a binding was requested
 }
 
 func (g *gen) next(p int64) int64 { g.ctr[p]++; return 100*p + g.ctr[p] }
@@ -206,6 +209,130 @@ func (g *gen) announcers(d int64) int {
 	return n
 }
 
+// compatible: a subscription/binding of f on s is granted as far as roles and types go
+func compatible(f rfeat, s lfeat) bool {
+	return f.role == 0 && (s.typ == f.typ || s.typ == 4 || f.typ == 4)
+}
+
+// overlap: while a teardown of p runs (disconnect, entity-removing notification or reply), the
+// subscribe / bind / delete call of another peer q arrives.  Only calls that commute with the
+// teardown are generated (then "teardown, then call" is the only outcome): device addresses
+// pairwise distinct, no entity announced under a foreign address, q has answered the discovery
+// request, and a binding request only for a server feature p never asked a binding for.
+func (g *gen) overlap(p *peerSt) {
+	r := g.r
+	if g.mode != 0 || !p.connected || p.foreign || len(g.tmpl) == 0 {
+		return
+	}
+	var qs []*peerSt
+	for _, q := range g.peers {
+		if q != p && q.connected && q.replied && !q.foreign {
+			qs = append(qs, q)
+		}
+	}
+	srvs := g.servers()
+	if len(qs) == 0 || len(srvs) == 0 {
+		return
+	}
+	q := qs[r.Intn(len(qs))]
+	// give p something to lose (a subscription and, sometimes, a binding on a feature of its own)
+	var pf []rfeat
+	for _, f := range g.tmpl {
+		if p.ents[ekey(f.ent)] {
+			pf = append(pf, f)
+		}
+	}
+	if len(pf) > 0 && r.Chance(4, 5) {
+		f := pf[r.Intn(len(pf))]
+		for _, s := range srvs {
+			if compatible(f, s) {
+				t := s.typ
+				if t == 4 {
+					t = f.typ
+				}
+				g.add(stack.OpSubCall(p.ski, g.next(p.ski), r.Bool(), g.raddr(p, f, true), laddr(s, true), t+1))
+				if r.Chance(1, 3) {
+					g.bound[fmt.Sprint(p.ski, s.ent, s.id)] = true
+					g.add(stack.OpBindCall(p.ski, g.next(p.ski), r.Bool(), g.raddr(p, f, true), laddr(s, true), t+1))
+				}
+				break
+			}
+		}
+	}
+	// q's call
+	var qf []rfeat
+	for _, f := range g.tmpl {
+		if q.ents[ekey(f.ent)] {
+			qf = append(qf, f)
+		}
+	}
+	if len(qf) == 0 {
+		return
+	}
+	f := qf[r.Intn(len(qf))]
+	s := srvs[r.Intn(len(srvs))]
+	for _, c := range srvs {
+		if compatible(f, c) && r.Chance(2, 3) {
+			s = c
+			break
+		}
+	}
+	t := s.typ
+	if t == 4 {
+		t = f.typ
+	}
+	var call hx.Zs
+	switch r.Pick(5, 2, 3, 1) {
+	case 0:
+		call = stack.OpSubCall(q.ski, g.next(q.ski), r.Bool(), g.raddr(q, f, true), laddr(s, true), t+1)
+	case 1:
+		call = stack.OpSubDelete(q.ski, g.next(q.ski), r.Bool(), g.raddr(q, f, r.Bool()), laddr(s, true))
+	case 2:
+		if g.bound[fmt.Sprint(p.ski, s.ent, s.id)] {
+			return
+		}
+		g.bound[fmt.Sprint(q.ski, s.ent, s.id)] = true
+		call = stack.OpBindCall(q.ski, g.next(q.ski), r.Bool(), g.raddr(q, f, true), laddr(s, true), t+1)
+	default:
+		call = stack.OpBindDelete(q.ski, g.next(q.ski), r.Bool(), g.raddr(q, f, r.Bool()), laddr(s, true))
+	}
+	// p's teardown
+	var td hx.Zs
+	switch r.Pick(5, 3, 2) {
+	case 0:
+		td = stack.OpDisconnect(p.ski)
+		if !p.replied {
+			count("teardowns-of-address-less-peer")
+		}
+		p.connected = false
+		count("disconnects")
+	case 1:
+		if len(pf) == 0 {
+			return
+		}
+		e := pf[r.Intn(len(pf))].ent
+		dev := int64(0)
+		if p.replied {
+			dev = p.dev + 1
+		}
+		td = stack.OpDiscoveryNotify(p.ski, g.next(p.ski), r.Bool(), g.msg(p, 2, [][]int64{e}, dev))
+		delete(p.ents, ekey(e))
+		count("entity-removals")
+	default:
+		if !p.replied {
+			return
+		}
+		h := len(g.h)
+		g.reply(p, true)
+		td = g.h[h]
+		g.h = g.h[:h]
+		count("repeated-discovery-replies")
+	}
+	g.add(stack.OpDuring(td, call))
+	count("teardowns-overlapped-by-a-call-of-another-peer")
+	g.probe()
+}
+
 func (g *gen) probe() {
 	for _, p := range g.peers {
 		g.add(stack.OpListSubs(p.ski))
@@ -234,7 +361,7 @@ func (g *gen) probe() {
 }
 
 func genHistory(r *hx.Rng, tier string, i int) []hx.Zs {
-	g := &gen{r: r, ctr: map[int64]int64{}, nmRefs: map[int64]bool{}, asked: map[string]bool{}, gen: map[int64]int{}}
+	g := &gen{r: r, ctr: map[int64]int64{}, nmRefs: map[int64]bool{}, asked: map[string]bool{}, gen: map[int64]int{}, bound: map[string]bool{}}
 
 	// ---- local tree: servers with functions, client features for local requests
 	fnsOfType := map[int64][]int64{1: {1, 2}, 2: {3}, 3: {4}, 4: {}}
@@ -298,6 +425,7 @@ func genHistory(r *hx.Rng, tier string, i int) []hx.Zs {
 	// ---- peers: identical numbering; device addresses distinct / partly equal / all equal
 	np := r.Range(2, 3)
 	mode := r.Pick(5, 2, 2)
+	g.mode = mode
 	for k := 1; k <= np; k++ {
 		p := &peerSt{ski: int64(k), dev: int64(k), ents: map[string]bool{}}
 		switch mode {
@@ -328,7 +456,7 @@ func genHistory(r *hx.Rng, tier string, i int) []hx.Zs {
 	start := len(g.h)
 	for len(g.h) < start+n {
 		p := g.peers[r.Intn(len(g.peers))]
-		switch r.Pick(22, 10, 8, 6, 6, 4, 8, 7, 5, 5, 4, 3) {
+		switch r.Pick(22, 10, 8, 6, 6, 4, 8, 7, 5, 5, 4, 3, 9) {
 		case 0: // subscribe call
 			if !p.connected {
 				break
@@ -387,6 +515,7 @@ func genHistory(r *hx.Rng, tier string, i int) []hx.Zs {
 				if !p.replied && !p.ents[ekey(f.ent)] {
 					count("calls-of-address-less-peer-naming-unknown-feature")
 				}
+				g.bound[fmt.Sprint(p.ski, s.ent, s.id)] = true
 				g.add(stack.OpBindCall(p.ski, g.next(p.ski), r.Bool(), g.raddr(p, f, true), laddr(s, true), s.typ+1))
 			}
 		case 2: // local data change
@@ -487,6 +616,7 @@ func genHistory(r *hx.Rng, tier string, i int) []hx.Zs {
 				dev = p.dev + 1
 			} else if r.Chance(1, 6) {
 				dev = p.dev + 1 // an address-less connection announcing entities under a device address
+				p.foreign = true
 			}
 			n := 1
 			if r.Chance(1, 3) {
@@ -543,6 +673,8 @@ func genHistory(r *hx.Rng, tier string, i int) []hx.Zs {
 				count("repeated-discovery-replies")
 				g.probe()
 			}
+		case 12: // a teardown of p overlapped by a registry call of another peer q
+			g.overlap(p)
 		default: // a late discovery reply
 			if p.connected && !p.replied && (!p.preNM || allowPreNM) {
 				if p.preNM {
@@ -617,6 +749,9 @@ func main() {
 			m := map[string]any{}
 			for k, v := range stats {
 				m[k] = v
+			}
+			for k, v := range stack.OverlapStats() {
+				m["observed-overlap-"+k] = v
 			}
 			return map[string]any{"generated": m}
 		},
